@@ -8,6 +8,9 @@ CONSTANTS
   EmptyListPassThrough = TRUE
   Mode = "copy"
   HashCache = "none"
+  LazyHash = "getter"
+  ObsKinds <- ObsActs
+  EmitLazy = FALSE
   CopyViaCtor = FALSE
   Emit = FALSE
 INVARIANT CopyEqual
